@@ -48,6 +48,12 @@ func C09(t *rapid.T) *world.Scenario {
 			// a URI whose cache key has an exactly drawn length (every length in the range where
 			// file names, fragments and other size limits of a backend may sit)
 			n := rapid.IntRange(150, 330).Draw(t, "keylen"+itoa(int64(i)))
+			switch Weighted(t, "keylenk"+itoa(int64(i)), 75, 10, 15) {
+			case 1: // around the default size of buffered readers
+				n = rapid.IntRange(3990, 4200).Draw(t, "keylen4k"+itoa(int64(i)))
+			case 2:
+				n = Pick(t, "keylenbig"+itoa(int64(i)), 1000, 2048, 5000, 8192, 9000, 16500, 33000, 66000)
+			}
 			slots[i].res = ExactLenResource(n)
 		}
 		if Pct(t, "vary"+itoa(int64(i)), 35) {
@@ -286,7 +292,7 @@ func C06(t *rapid.T) *world.Scenario {
 			}
 		case 2: // request no-store
 			fresh()
-			rq.Header = append(rq.Header, H("Cache-Control", Pick(t, lbl+"-rns", "no-store", "no-store, max-age=0", "max-stale=5, no-store")))
+			rq.Header = append(rq.Header, H("Cache-Control", Pick(t, lbl+"-rns", "no-store", "no-store, max-age=0", "max-stale=5, no-store", `ext="C:\\", no-store`, "e1, e2, e3, e4, e5, e6, e7, e8, e9, e10, e11, e12, e13, e14, e15, e16, e17, no-store")))
 			if Pct(t, lbl+"-bgfull", 50) {
 				// if an earlier entry is served stale under stale-while-revalidate, the refresh
 				// fetched for this no-store request must not be stored either
@@ -340,7 +346,7 @@ func C06(t *rapid.T) *world.Scenario {
 			rp.Shape = Pick(t, lbl+"-shape", "cl", "chunked", "close")
 		}
 		if len(cc) > 0 {
-			rp.Header = append(rp.Header, H("Cache-Control", JoinCC(cc)))
+			rp.Header = append(rp.Header, H("Cache-Control", JoinCC(MaybeExt(t, lbl+"-rp", cc, 10))))
 		}
 		if Pct(t, lbl+"-etag", 50) {
 			rp.Header = append(rp.Header, H("Etag", `"v$S"`))
@@ -348,6 +354,9 @@ func C06(t *rapid.T) *world.Scenario {
 		rq.Uncond = rp
 		if rq.Cond == nil && Pct(t, lbl+"-c304", 50) {
 			rq.Cond = Simple304()
+		}
+		if rq.Method == "GET" && Pct(t, lbl+"-nomethod", 6) {
+			rq.EmptyMethod = true // Method "" is how net/http spells GET
 		}
 		_ = h
 		sc.Steps = append(sc.Steps, ReqStep(rq))
@@ -392,7 +401,9 @@ func C07(t *rapid.T) *world.Scenario {
 	nunsafe := rapid.IntRange(1, 2).Draw(t, "nunsafe")
 	for i := 0; i < nunsafe; i++ {
 		lbl := "u" + itoa(int64(i))
-		m := Pick(t, lbl+"-m", "POST", "PUT", "DELETE", "PATCH", "PROPPATCH", "MKCOL", "COPY", "MOVE", "LOCK", "UNLOCK", "ACL", "FOO", "post", "PURGE")
+		m := Pick(t, lbl+"-m", "POST", "PUT", "DELETE", "PATCH", "PROPPATCH", "MKCOL", "COPY", "MOVE", "LOCK", "UNLOCK", "ACL", "FOO", "post", "PURGE",
+			// method tokens are case-sensitive: these are not GET, HEAD, ... but methods of unknown safety
+			"get", "Head", "options", "Trace", "propfind", "Report", "search")
 		target := Pick(t, lbl+"-target", "r1", "r1", "r2", "r3")
 		rq := &world.Req{Method: m, URL: Spelling(t, lbl, target, 60)}
 		st := Pick(t, lbl+"-st", 200, 201, 204, 301, 303, 200, 204, 400, 404, 409, 500, 503)
